@@ -100,6 +100,9 @@ def run(ctx, impl_only=False):
             s1, s2 = copy.deepcopy(t1), copy.deepcopy(t2)
             try:
                 dd = DeepDiff(t1, t2, **kw)
+                if ctx.evaluations % 3 == 0:
+                    # other deltas and views taken from the same DeepDiff object first: building one must not change what the next one gets
+                    Delta(dd); dd._to_delta_dict(); Delta(dd, always_include_values=True)
                 mk = lambda **o: Delta(dd, bidirectional=True, **o)
                 payload = None
                 fwd, rf = DL.apply_outcome(lambda: t1 + mk())
